@@ -122,7 +122,8 @@ func runC19(c *fw.Ctx) {
 			for ui, urlTags := range urlSets {
 				for m1, t1 := range tagSets {
 					for m2, t2 := range tagSets {
-						for _, hoist := range []bool{false, true} {
+						for _, hoistKind := range []int{0, 1, 2} { // 0 none, 1 a method with another path, 2 a method with the URL's own path
+							hoist := hoistKind != 0
 							for _, declAfter := range []bool{false, true} {
 								for _, undeclName := range []string{"@undeclared", "@top", "@first"} {
 									for undeclaredAt := 0; undeclaredAt <= 4; undeclaredAt++ {
@@ -208,8 +209,18 @@ func runC19(c *fw.Ctx) {
 										if hoist {
 											// a path-bearing method right after the implicit URL block is a top-level interaction
 											h := n("DELETE", "/other/x").WithKids(n("204", "empty"))
+											want := expI{"http DELETE /other/x", []string{"@other"}}
+											if hoistKind == 2 {
+												// the same path as the block it leaves: not enclosed by the URL, so the automatic tag
+												h = n("DELETE", "/u/{id}").WithKids(n("204", "empty"))
+												want = expI{"http DELETE /u/{id}", []string{"@u"}}
+											}
 											url.Kids = append(url.Kids, h)
-											exp = append(exp, expI{"http DELETE /other/x", []string{"@other"}})
+											exp = append(exp, want)
+										}
+										if proto == "http" && m2%2 == 0 {
+											// a top-level method on the URL's path, written after the block
+											exp = append(exp, expI{"http PATCH /u/{id}", []string{"@u"}})
 										}
 										top := n("PUT", "/top").WithKids(n("200", "any"))
 										if m1%3 == 1 {
@@ -217,6 +228,9 @@ func runC19(c *fw.Ctx) {
 											exp = append(exp, expI{"http PUT /top", []string{"@k"}})
 										} else {
 											exp = append(exp, expI{"http PUT /top", []string{"@top"}})
+										}
+										if proto == "http" && m2%2 == 0 {
+											nodes = append(nodes, n("PATCH", "/u/{id}").WithParen().WithKids(n("200", "any")))
 										}
 										nodes = append(nodes, top)
 										if undeclaredAt == 1 {
@@ -227,7 +241,7 @@ func runC19(c *fw.Ctx) {
 											nodes = append(nodes, decl...)
 										}
 										text := doc.Text(nodes)
-										label := fmt.Sprintf("proto=%s paren=%v url=%d m1=%d m2=%d hoist=%v after=%v undeclared=%d", proto, paren, ui, m1, m2, hoist, declAfter, undeclaredAt)
+										label := fmt.Sprintf("proto=%s paren=%v url=%d m1=%d m2=%d hoist=%d after=%v undeclared=%d", proto, paren, ui, m1, m2, hoistKind, declAfter, undeclaredAt)
 										if undeclared {
 											label += " name=" + undeclName
 										}
